@@ -29,6 +29,11 @@ SCRIPTS = [
     ("two", "GET /a HTTP/1.1\r\n\r\nGET /b?q=1 HTTP/1.1\r\n\r\n"),
     ("bodyreq", "POST /u HTTP/1.1\r\nContent-Length: 19\r\n\r\nGET /x HTTP/1.1\r\n\r\n"),
     ("expectget", "GET /e HTTP/1.1\r\nExpect: 100-continue\r\n\r\nxyzzy"),
+    ("chunked-cl0", "POST /u HTTP/1.1\r\nTransfer-Encoding: chunked\r\nContent-Length: 0\r\n\r\nGET /x HTTP/1.1\r\n\r\n"),
+    ("chunked-cl5", "POST /u HTTP/1.1\r\nContent-Length: 5\r\nTransfer-Encoding: chunked\r\n\r\nhelloGET /x HTTP/1.1\r\n\r\n"),
+    ("gzip-cl0", "POST /u HTTP/1.1\r\nTransfer-Encoding: gzip\r\nContent-Length: 0\r\n\r\nGET /x HTTP/1.1\r\n\r\n"),
+    ("cl0", "POST /u HTTP/1.1\r\nContent-Length: 0\r\n\r\nGET /x HTTP/1.1\r\n\r\n"),
+    ("expect-cl0", "PUT /u HTTP/1.1\r\nExpect: 100-continue\r\nContent-Length: 0\r\n\r\nGET /x HTTP/1.1\r\n\r\n"),
 ]
 OPS = ["RR", "BV", "BF 1 0", "BF 1 4", "BF 1 5", "BF 1 1000000", "BF 0 100", "CO",
        "WR 100 n", "WR 200 n", "WR 200 t", "WR 404 t", "WR 500 n", "WR 200 d", "WR 200 cl", "WR 200 ct", "WR 200 te", "SH"]
